@@ -2,7 +2,7 @@
     returns successfully holds a certificate that is not due (thread-level lemmas). *)
 From Coq Require Import List Bool Arith Lia.
 From CM Require Import Issuance.Model Issuance.Proofs Issuance.Invariants Issuance.NoReissueTL Issuance.AgreeTL0 Issuance.Takeover
-  Issuance.ManageTL Issuance.ManageM.
+  Issuance.ManageTL.
 Import ListNotations.
 
 (** the stored certificate is not due *)
